@@ -148,5 +148,56 @@ func cmdOptList(args []string) int {
 		}
 		w.emit(out)
 	}
+	// tagged values in corners that the SDK's schema constructors refuse: Prepare has to return an error, not panic (C11 / C10)
+	corners := []struct{ name, out, stepIn string }{
+		{"oneof-output-discriminator-collides-with-option-field", "    r: !oneof\n      discriminator: s\n      one_of:\n        a: !expr $.steps.v.outputs.success\n", "      s: y\n"},
+		{"oneof-output-ok", "    r: !oneof\n      discriminator: kind\n      one_of:\n        a: !expr $.steps.v.outputs.success\n", "      s: y\n"},
+		{"oneof-output-two-options-one-collides", "    r: !oneof\n      discriminator: s\n      one_of:\n        a: !expr $.steps.v.outputs.success\n        b: !expr $.steps.v.outputs.error\n", "      s: y\n"},
+		{"oneof-in-list-output-collides", "    r:\n      - !oneof\n        discriminator: s\n        one_of:\n          a: !expr $.steps.v.outputs.success\n", "      s: y\n"},
+		{"oneof-step-input-collides", "    r: !expr $.steps.u.outputs.success.s\n", "      s: !oneof\n        discriminator: s\n        one_of:\n          a: !expr $.steps.v.outputs.success\n"},
+	}
+	for _, cn := range corners {
+		id := fmt.Sprintf("optlist-%d", i)
+		i++
+		text := "version: v0.2.0\ninput:\n  root: RootObject\n  objects:\n    RootObject:\n      id: RootObject\n      properties: {}\n" +
+			"steps:\n  v:\n    plugin:\n      src: v\n      deployment_type: builtin\n    step: op\n    input:\n      s: y\n" +
+			"  u:\n    plugin:\n      src: u\n      deployment_type: builtin\n    step: op\n    input:\n" + cn.stepIn +
+			"outputs:\n  success:\n" + cn.out
+		out := map[string]any{"kind": "optlist", "id": id, "tag": "corner", "position": cn.name, "source_produced": true, "yaml": text, "key": id}
+		s := newScript()
+		currentScript.Store(s)
+		g := guarded(30*time.Second, func() {
+			reg, f, err := newRegistry(nil)
+			if err != nil {
+				out["skip"] = "registry: " + err.Error()
+				return
+			}
+			s.probe.Store(true)
+			prepared, err := prepareYAML(reg, f, text, nil)
+			s.probe.Store(false)
+			if err != nil {
+				out["prepare_err"] = err.Error()
+				return
+			}
+			out["accepted"] = true
+			ctx, cancel := context.WithTimeout(context.Background(), 20*time.Second)
+			defer cancel()
+			oid, data, err := prepared.Execute(ctx, map[string]any{})
+			out["output_id"] = oid
+			if err != nil {
+				out["err"] = err.Error()
+				out["err_class"] = classifyExecErr(err)
+				return
+			}
+			out["returned"] = fmt.Sprintf("%v", data)
+		})
+		if g.Panic != "" {
+			out["panic"] = g.Panic
+		}
+		if g.Timeout {
+			out["timeout"] = true
+		}
+		w.emit(out)
+	}
 	return 0
 }
